@@ -181,7 +181,7 @@ class FitLoop(_VecMixin):
 
     def params(self, eng, st):
         self.nu, self.MI, self.eps = Real("nu"), Int("max_iter"), Real("eps")
-        st.assume(self.MI >= 1, self.eps > 0, self.nu > 0)
+        st.assume(self.MI >= 1, self.eps > 0, self.nu >= 0)          # a requested threshold (any non-negative number, 0 = never stop early)
         self.lag = Abstract("lagrangian")
         st.env.update({"self": Obj("ExponentiatedGradient", {"eps": self.eps, "nu": self.nu, "max_iter": self.MI, "eta0": Real("eta0"), "run_linprog_step": self.run_lp,
                                                              "estimator": Abstract("est"), "constraints": Abstract("cons"), "objective": Abstract("obj"),
@@ -350,19 +350,33 @@ class FitLoop(_VecMixin):
 
 
 
+def _native_case(c):
+    from ..bounded import C08 as X
+    try:
+        return X._check(c)[2]
+    except Exception:
+        return None
+
+
 def _fit_native_search(self, ob, r):
     """bounded native search after a refuted / undecided obligation of the fit loop: the real ExponentiatedGradient.fit with the exact learner of the
-    stand-in (vf/bounded/C08.py) on ~800 seeded small cases without and with the LP step, all guarantees re-evaluated from first principles"""
+    stand-in (vf/bounded/C08.py) on ~650 seeded small cases (forked worker pool), all guarantees re-evaluated from first principles"""
+    import multiprocessing as mp
+    import os
     from ..bounded import C08 as X
     cases = [c for c in X._cases(0, 3, 2, 40) if c[7] <= 20]
-    cases = [c for c in cases if c[8]][:60] + [c for c in cases if not c[8]]          # ~800 runs: the rare histories (a predictor discovered by the gap
-    # evaluation before it is selected, non-monotone gaps) need the EG iterate to be returned, i.e. run_linprog_step=False
+    zero_nu = [c[:7] + (20,) + c[8:10] + (0.0,) + c[11:] for c in cases if not c[8]][:30]          # requested nu = 0: fitting must never stop early
+    # the rare histories (a predictor discovered by the gap evaluation before it is selected, non-monotone gaps) need the EG iterate to be returned,
+    # i.e. run_linprog_step=False
+    cases = zero_nu + [c for c in cases if c[8]][:60] + [c for c in cases if not c[8]][:550]
     known = {"C08:fit:raises:zero-signed-weights-nan"}
-    for c in cases:
-        res = X._check(c)[2]
-        if res is not None and res[0] not in known:
-            key, what, rp = res
-            return {"confirmed": True, "key": key, "what": what, "replay": rp}
+    workers = int(os.environ.get("VF_WORKERS", "0") or 0) or min(16, os.cpu_count() or 4)
+    with mp.get_context("fork").Pool(workers) as pool:
+        for res in pool.imap(_native_case, cases, chunksize=8):
+            if res is not None and res[0] not in known:
+                key, what, rp = res
+                pool.terminate()
+                return {"confirmed": True, "key": key, "what": what, "replay": rp}
     return {"confirmed": False}
 
 
